@@ -175,6 +175,10 @@ struct Printer {
     out: String,
     line: usize,
     sass: bool,
+    /// put dense non-ASCII text in front of directives on the same line (SCSS
+    /// only): columns and byte offsets then differ, which is what error
+    /// rendering and location bookkeeping must cope with
+    cjk: bool,
     /// tag -> line
     lines: BTreeMap<u32, usize>,
 }
@@ -223,7 +227,8 @@ impl Printer {
             match n {
                 Node::Debug { tag, vars } => {
                     self.lines.insert(*tag, self.line + 1);
-                    self.stmt(indent, &format!("@debug {}", Self::msg("d", *tag, vars)));
+                    let pre = if self.cjk && !self.sass && tag % 3 == 0 { "/* 説明テキスト */ " } else { "" };
+                    self.stmt(indent, &format!("{}@debug {}", pre, Self::msg("d", *tag, vars)));
                 }
                 Node::Warn { tag, vars } => {
                     self.lines.insert(*tag, self.line + 1);
@@ -231,7 +236,8 @@ impl Printer {
                 }
                 Node::Error { tag, vars } => {
                     self.lines.insert(*tag, self.line + 1);
-                    self.stmt(indent, &format!("@error \"{}\"", Self::msg("e", *tag, vars)));
+                    let pre = if self.cjk && !self.sass { "$_cjk: \"日本語テキストの説明です、とても長い\"; " } else { "" };
+                    self.stmt(indent, &format!("{}@error \"{}\"", pre, Self::msg("e", *tag, vars)));
                 }
                 Node::For { var, lo, hi, inclusive, body } => {
                     self.open(indent, &format!("@for ${} from {} {} {}", var, lo, if *inclusive { "through" } else { "to" }, hi));
@@ -573,12 +579,15 @@ pub fn gen_script(rng: &mut Rng, root: &str) -> Script {
         files[target].body = body;
     }
     // print
+    let cjk = g.rng.chance(0.3);
+    let crlf = g.rng.chance(0.2);
     let mut texts = vec![];
     let mut lines = vec![];
     for f in &files {
-        let mut p = Printer { out: String::new(), line: 0, sass: f.sass, lines: BTreeMap::new() };
+        let mut p = Printer { out: String::new(), line: 0, sass: f.sass, cjk, lines: BTreeMap::new() };
         p.file(f, &files);
-        texts.push(p.out);
+        // CRLF line ends: line numbers stay the same, byte offsets and line terminators do not
+        texts.push(if crlf { p.out.replace('\n', "\r\n") } else { p.out });
         lines.push(p.lines);
     }
     // execute the tree
